@@ -44,6 +44,7 @@ func (StreamEngine) Name() string { return "streamsim" }
 const maxPkt = 8800
 
 var errTransient = errors.New("simulated transient read error")
+var errSpin = errors.New("simulated reader: read budget exhausted")
 
 func tlnumLen(v int) int {
 	switch {
@@ -217,12 +218,15 @@ type chunkReader struct {
 	maxCalls int
 	inHdr   func(off int) bool
 	hdrEnds int
+	spun    bool
 }
 
 func (c *chunkReader) Read(p []byte) (int, error) {
 	c.calls++
 	if c.calls > c.maxCalls {
-		panic("harness: read budget exceeded (stream framing does not make progress)")
+		// the framing loop keeps calling Read without consuming the stream (e.g. with a zero-length buffer)
+		c.spun = true
+		return 0, errSpin
 	}
 	idx := c.ri
 	c.ri++
@@ -332,6 +336,9 @@ func (e StreamEngine) Run(t *testing.T, ctx *kit.Ctx, sc *kit.Scenario[StreamCon
 			got = append(got, append([]byte(nil), f...)) // copy inside the callback, as the link service does
 		}, func(err error) bool { return errors.Is(err, errTransient) })
 		hdrEnds = rd.hdrEnds
+		if rd.spun {
+			return fail("C11/framing-spins-without-progress", "fw", "readTlvStream made %d Read calls for a %d-byte stream without finishing (%d of %d blocks delivered): it reads with no buffer space or never advances", rd.calls, len(data), len(got), len(want))
+		}
 		if rd.calls > 0 && len(data) > maxPkt*32 {
 			ctx.Probe("stream-longer-than-receive-buffer")
 		}
